@@ -117,8 +117,7 @@ def run(ctx):
             text = s.text()
             name = "conftest.py" if i % 5 == 0 else f"test_g{i % 7}.py"
             one(ctx, vh, db, f"gen:{i}", f"/vf_c03/g/{name}", text, s.features)
-            if i < 2:
-                ctx.sample({"source": text[:1500], "features": sorted(s.features)})
+            ctx.sample({"source": text[:1500], "features": sorted(s.features)})
             if i % 200 == 199:
                 vh.call(op="drop_db", db=db)
                 db = vh.new_db()
